@@ -117,21 +117,24 @@ def gen_notes_master(rng, prs):
         spTree.append(parse_xml(xml))
 
 
-def gen_layout_population(rng, layout):
+def gen_layout_population(rng, layout, top=False):
     """rewrite the placeholders of a layout (XML level, to build the INPUT deck)"""
     from pptx.oxml import parse_xml
 
     spTree = layout.shapes._spTree
     for sp in list(ph_elms(spTree)):
         spTree.remove(sp)
-    n = rng.randint(0, 7)
+    n = rng.randint(1 if top else 0, 7)
     used = []
+    top_at = rng.randrange(n) if top else -1   # one placeholder at the largest idx the schema has (xsd:unsignedInt)
     for i in range(n):
         ty = rng.choice([t for t in ALL_TYPES if t != "sldImg"])
         if used and rng.random() < 0.3:
             ty = rng.choice(used)  # duplicate type
         used.append(ty)
         idx = rng.choice([None, i + 10, i + 10, 0, 4294967295 if rng.random() < 0.05 else i + 20])
+        if i == top_at:
+            idx = 4294967295
         orient = ' orient="vert"' if rng.random() < 0.2 else ""
         sz = rng.choice(["", "", ' sz="half"', ' sz="quarter"'])
         geom = "" if rng.random() < 0.3 else f'<a:xfrm><a:off x="{rng.choice([0, rng.randint(0, 10**6)])}" y="{rng.choice([0, rng.randint(0, 10**6)])}"/><a:ext cx="{rng.randint(1, 10**6)}" cy="{rng.randint(1, 10**6)}"/></a:xfrm>'
@@ -319,7 +322,12 @@ def check_notes(ctx, prs, slide, label):
     nm = prs.notes_master
     want = [key_of(sp) for sp in ph_elms(nm.shapes._spTree) if key_of(sp)[0] in ("sldImg", "body", "sldNum")]
     got = [key_of(sp) for sp in ph_elms(ns.shapes._spTree)]
-    ctx.case(key=(label, "notes", slide.slide_id)); ctx.count("notes_slide")
+    try:
+        sid = slide.slide_id
+    except ValueError as e:
+        ctx.fail("other-slide-touched", f"{label}: a slide added earlier is no longer among the presentation's slides ({e})", case)
+        return
+    ctx.case(key=(label, "notes", sid)); ctx.count("notes_slide")
     if got != want:
         ctx.fail("notes-not-mirrored", f"{label}: notes slide placeholders {got}, notes master's cloneable placeholders {want}", case)
     names = [sp.nvSpPr.cNvPr.get("name") for sp in ph_elms(ns.shapes._spTree)]
@@ -358,6 +366,34 @@ def rid_gap(data, rng):
     return out.getvalue()
 
 
+def renumbered(data, rng):
+    """the same deck as another producer numbers it: the relationships of the presentation part carry other numbers
+    (slides low, as PowerPoint does, or shuffled), with unused numbers in between and above their count; every r:id
+    in ppt/presentation.xml follows"""
+    import re
+    import zipfile
+    z = zipfile.ZipFile(io.BytesIO(data))
+    pres = z.read("ppt/presentation.xml").decode("utf-8")
+    rels = z.read("ppt/_rels/presentation.xml.rels").decode("utf-8")
+    ids = re.findall(r'<Relationship [^>]*?Id="([^"]+)"', rels)
+    n = len(ids)
+    nums = sorted(rng.sample(range(1, n + 1 + rng.randint(1, 3)), n))
+    order = sorted(ids, key=lambda i: (0 if re.search(r'Id="%s"[^>]*slideMaster|slideMaster[^>]*Id="%s"' % (i, i), rels) else
+                                       1 if re.search(r'Id="%s"[^>]*relationships/slide"|relationships/slide"[^>]*Id="%s"' % (i, i), rels) else 2,
+                                       int(i[3:]) if i[3:].isdigit() else 0))
+    if rng.random() < 0.3:
+        rng.shuffle(order)
+    m = {old: "rId%d" % k for old, k in zip(order, nums)}
+    rels = re.sub(r'Id="([^"]+)"', lambda g: 'Id="%s"' % m[g.group(1)], rels)
+    pres = re.sub(r'r:id="([^"]+)"', lambda g: 'r:id="%s"' % m.get(g.group(1), g.group(1)), pres)
+    out = io.BytesIO()
+    with zipfile.ZipFile(out, "w", zipfile.ZIP_DEFLATED) as zo:
+        for nm in z.namelist():
+            zo.writestr(nm, rels.encode("utf-8") if nm == "ppt/_rels/presentation.xml.rels" else
+                        pres.encode("utf-8") if nm == "ppt/presentation.xml" else z.read(nm))
+    return out.getvalue()
+
+
 def correspond(ctx):
     from pptx import Presentation
 
@@ -380,12 +416,16 @@ def correspond(ctx):
     for gi in range(n_gen):
         prs = Presentation()
         layout = prs.slide_layouts[rng.randrange(len(prs.slide_layouts))]
-        gen_layout_population(rng, layout)
+        gen_layout_population(rng, layout, top=(gi % 8 == 1))
         if gi % 3 == 0:
             if rng.random() < 0.5:
-                prs.slides.add_slide(prs.slide_layouts[6]); prs.slides.add_slide(prs.slide_layouts[6])
+                for _ in range(rng.choice([2, 2, 5, 9])):
+                    prs.slides.add_slide(prs.slide_layouts[6])
             b = io.BytesIO(); prs.save(b); b.seek(0)
-            if rng.random() < 0.6:
+            r = rng.random()
+            if gi % 6 == 0 and len(prs.slides._sldIdLst) >= 5:
+                b = io.BytesIO(renumbered(b.getvalue(), rng)); ctx.count("renumbered-relationship-decks")
+            elif r < 0.6:
                 b = io.BytesIO(rid_gap(b.getvalue(), rng)); ctx.count("relationship-id-gap-decks")
             prs = Presentation(b)
             layout = [l for l in prs.slide_layouts if l.name == layout.name][0]
